@@ -6,6 +6,9 @@ from collections.abc import Callable
 import numpy as np
 
 
+THETA = 0.25  # share of rmse^2 given to the squared bias, the estimator variance gets the remaining 1 - THETA
+
+
 class ConvergenceCriteria:
     """Characterisation of the criteria convergence and the update of the number of paths after each pass"""
 
@@ -29,7 +32,7 @@ def compute_mc_paths_giles(rmse: float, vl: np.array, cl: np.array) -> np.array:
     :param cl: cost of each level l
     :return: the updated number of Monte-Carlo paths for each level l
     """
-    theta = 0.25
+    theta = THETA
     cl_zerocost = cl.copy()
     cl_zerocost[
         cl_zerocost == 0
@@ -48,7 +51,7 @@ def criteria_giles(alpha: float, ml: np.array, rmse: float) -> bool:
     :return: true if the convergence criteria has been met
     """
     rem = max(ml[-1], ml[-2] / 2**alpha, ml[-3] / 2 ** (2 * alpha)) / (2**alpha - 1)
-    return rem <= rmse / np.sqrt(2)
+    return rem <= np.sqrt(THETA) * rmse
 
 
 def criteria_run_to_maximum_level(alpha: float, ml: np.array, rmse: float) -> bool:
